@@ -110,19 +110,9 @@ impl LineRange {
         ranges
     }
 //#end
-//#item file=src/authorship/authorship_log.rs kind=fn name=expand impl="LineRange"
-    pub fn expand(&self) -> (r_: Vec<u32>)
-    //@     requires lr_nonempty(*self),
-    //@     ensures
-    //@         r_@.len() == lr_hi(*self) - lr_lo(*self) + 1,
-    //@         forall|k: int| 0 <= k < r_@.len() ==> #[trigger] r_@[k] == lr_lo(*self) + k,
-    {
-        match self {
-            LineRange::Single(l) => vec![*l],
-            LineRange::Range(start, end) => (*start..=*end).collect(),
-        }
-    }
-//#end
+}
+//#include ../_shared/linerange_expand.inc.rs
+impl LineRange {
 }
 
 // ---------------------------------------------------------------- property-level lemmas (C04)
